@@ -155,6 +155,8 @@ def control_schedules(draw, alphabet, max_events=4, max_gap=4, post=False):
             sched.append(['open', draw(st.sampled_from(GATES))])
         elif what == 'withdraw_pause':
             sched.append(['withdraw', 'pause'])
+        elif what == 'killw':
+            sched.append(['killw', draw(TEXTS)])
         elif what == 'ext_soon':
             sched.append(['ext_soon', draw(st.sampled_from(['ok', 'ok', 'raise'])), 'e%d' % len(sched)])
         elif what in ('cancel_task', 'restep', 'reload', 'withdraw', 'close'):
